@@ -138,6 +138,7 @@ func buildReport(eng *Engine, prop, tier string, seed int64, cases []*ReplayCase
 	}
 	// replay results
 	validated := 0
+	observed := 0
 	violations := 0
 	knownMatched := []string{}
 	unconfirmed := []string{}
@@ -150,6 +151,19 @@ func buildReport(eng *Engine, prop, tier string, seed int64, cases []*ReplayCase
 			samples = append(samples, map[string]interface{}{"harness": c.Harness, "cover": c.Label, "witness_draws": drawsBrief(c.Draws), "native_outcome": o})
 			if ran && o == "ok" {
 				validated++
+				// predicted (engine, under the witness model) vs native observations
+				nat := nativeObs[c.ID]
+				for i, want := range c.Obs {
+					if i >= len(nat) || nat[i] != want {
+						got := "<missing>"
+						if i < len(nat) {
+							got = nat[i]
+						}
+						machinery = append(machinery, fmt.Sprintf("witness of %s: engine predicted %q but the native run observed %q", c.Harness, want, got))
+						break
+					}
+				}
+				observed += len(c.Obs)
 			} else if ran && !noReplay {
 				machinery = append(machinery, fmt.Sprintf("witness of %s (%s) does not replay natively: %s", c.Harness, c.Label, o))
 			}
@@ -240,6 +254,7 @@ func buildReport(eng *Engine, prop, tier string, seed int64, cases []*ReplayCase
 		"bounds":                         harnessBounds(prop, tier),
 		"exhaustive":                     false,
 		"region_merges":                  eng.merges.Load(),
+		"observations_compared":          observed,
 		"region_merge_aborts":            eng.mergeAborts.Load(),
 	}
 	if len(samples) == 0 {
